@@ -62,9 +62,9 @@ Definition pv_kill (owner : Z) (slash : f64) (t id caller : Z) (st : pv_state) :
       end
   end.
 
-(* storagesc shutdownBlobber / shutdownValidator through provider.ShutDown.
-   As in the code: the stake pool is saved under the CALLER's id (clientId), and the caller is
-   authorised only after the mutation (a refused caller rolls everything back). *)
+(* storagesc shutdownBlobber / shutdownValidator through provider.ShutDown: the caller is
+   authorised (owner or delegate wallet) before anything is changed, the killed pool is saved
+   under the provider's own id *)
 Definition pv_shutdown (owner : Z) (slash : f64) (t id caller : Z) (st : pv_state) : option pv_state :=
   match pv_provs st id with
   | None => None
@@ -74,12 +74,12 @@ Definition pv_shutdown (owner : Z) (slash : f64) (t id caller : Z) (st : pv_stat
       | None => None
       | Some sp =>
           if pv_killed p || pv_shut p then (if t =? pv_blobber then Some st else None)
+          else if negb ((caller =? owner) || (caller =? ss_wallet (sp_set sp))) then None
           else match sp_kill sp (f64_div slash (f64_of_Z 2)) with
           | None => None
           | Some sp' =>
-              let st1 := pv_set_pool st t caller (Some sp') in  (* sp.Save(p.Type(), clientId) *)
-              if negb ((caller =? owner) || (caller =? ss_wallet (sp_set sp'))) then None
-              else if pv_deletable t p sp'
+              let st1 := pv_set_pool st t id (Some sp') in     (* sp.Save(p.Type(), req.ID) *)
+              if pv_deletable t p sp'
               then Some (pv_set_pool (pv_set_prov st1 id None) t id None)
               else Some (pv_set_prov st1 id (Some (pv_mark_shut p)))
           end
